@@ -42,7 +42,6 @@ def goenv():
     tmp = os.path.join(OUT, "tmp")
     os.makedirs(tmp, exist_ok=True)
     env["TMPDIR"] = tmp
-    env.setdefault("GOCACHE", os.path.join(OUT, "gocache"))
     return env
 
 
@@ -62,14 +61,14 @@ def build_harness():
     if _built:
         return
     os.makedirs(BIN, exist_ok=True)
-    rc, out = run(["sh", os.path.join(VERIF, "harness", "gen_gomod.sh")])
-    if rc != 0:
-        raise Infra("gen_gomod failed: " + out)
     lock = os.path.join(OUT, "build.lock")
     os.makedirs(OUT, exist_ok=True)
     import fcntl
     with open(lock, "w") as lf:
         fcntl.flock(lf, fcntl.LOCK_EX)
+        rc, out = run(["sh", os.path.join(VERIF, "harness", "gen_gomod.sh")])
+        if rc != 0:
+            raise Infra("gen_gomod failed: " + out)
         rc, out = run(["go", "build", "-tags", "verif", "-o", os.path.join(BIN, "vharness"), "./cmd/vharness"],
                       cwd=os.path.join(VERIF, "harness"), env=goenv(), timeout=1500)
     if rc != 0:
